@@ -1709,6 +1709,8 @@ def implied_facts(guards):
             if not truth:
                 op = {"Eq": "Ne", "Ne": "Eq", "Lt": "Ge", "Ge": "Lt", "Gt": "Le", "Le": "Gt"}[op]
             facts.add(("cmp", op, a, b))
+            # the mirrored spelling is the same fact: `a > b` and `b < a` must not look different to a rule
+            facts.add(("cmp", {"Eq": "Eq", "Ne": "Ne", "Lt": "Gt", "Gt": "Lt", "Le": "Ge", "Ge": "Le"}[op], b, a))
         elif t == "not" and truth is not None:
             facts |= implied_facts([(cond[1], ("eq", 0 if truth else 1))])
         elif t == "booland" and truth:
